@@ -169,6 +169,8 @@ Proof.
   rewrite Z.mod_small by lia. f_equal. lia.
 Qed.
 
+Ltac disc := let H := fresh in intros H; discriminate H.
+
 Section Records.
 Variable hash : bytes -> bytes.
 Variable valid_name : bytes -> bool.
@@ -347,7 +349,7 @@ Qed.
 
 
 (** * 4. Inversion of the helpers *)
-Definition soa_key (tok : bytes) : rkey := (hash tok, hash tok, 6%N, 0%N).
+Definition soa_key (tok : bytes) : bytes * bytes * N * N := (hash tok, hash tok, 6%N, 0%N).
 Definition serial_data (c : nctx) (f0 f1 f3 f4 f5 f6 : bytes) : bytes :=
   f0 ++ SPACE :: f1 ++ SPACE :: itoa (now c) ++ SPACE :: f3 ++ SPACE :: f4 ++ SPACE :: f5 ++ SPACE :: f6.
 (** [new] is [old] with field 3 (the serial) of its seven space-separated
@@ -361,16 +363,16 @@ Lemma update_soa_serial_halt c s tok s' :
   exists old new, records s !! soa_key tok = Some old /\ str_ok (r_data old) = true /\
     soa_refreshed c old new /\ s' = set_records s (<[soa_key tok := new]> (records s)).
 Proof.
-  unfold update_soa_serial. cbv zeta. fold (soa_key tok). Show. destruct (records s !! soa_key tok) as [old|] eqn:Eo; cbv beta iota; [|Show; discriminate].
-  destruct (str_ok (r_data old)) eqn:Es; cbn [negb]; cbv beta iota; [|discriminate].
-  destruct (split_nonempty (r_data old)) as [|f0 [|f1 [|f2 [|f3 [|f4 [|f5 [|f6 [|f7 fs]]]]]]]] eqn:Ef; cbv beta iota; try discriminate.
-  intros H. injection H as <-. eexists old, _. split; [reflexivity|]. split; [reflexivity|]. split; [|reflexivity].
-  exists f0, f1, f2, f3, f4, f5, f6. split; reflexivity.
+  unfold update_soa_serial. cbv zeta. match goal with |- match ?x with Some _ => _ | None => _ end = _ -> _ => destruct x as [old|] eqn:Eo end; [|disc].
+  destruct (str_ok (r_data old)) eqn:Es; cbn [negb]; cbv beta iota; [|disc].
+  destruct (split_nonempty (r_data old)) as [|f0 [|f1 [|f2 [|f3 [|f4 [|f5 [|f6 [|f7 fs]]]]]]]] eqn:Ef; cbv beta iota; try disc.
+  intros H. injection H as <-. eexists old, _. split; [exact Eo|]. split; [exact Es|]. split; [|reflexivity].
+  exists f0, f1, f2, f3, f4, f5, f6. split; [exact Ef|reflexivity].
 Qed.
 
 Lemma update_soa_serial_fault c s tok :
   records s !! soa_key tok = None -> update_soa_serial hash str_ok c s tok = Fault.
-Proof. unfold update_soa_serial. cbv zeta. fold (soa_key tok). intros ->. reflexivity. Qed.
+Proof. unfold update_soa_serial, soa_key. cbv zeta. intros ->. reflexivity. Qed.
 
 Lemma put_soa_halt c s name email a b d e s' :
   put_soa hash valid_name c s name email a b d e = Halt s' ->
@@ -392,7 +394,7 @@ Lemma check_record_halt c s name typ data tok :
   exists ns, get_frag_ns hash c s tok (split_dot tok) = Halt ns /\ may_admin c ns = true.
 Proof.
   unfold check_record. intros H. inv_binds H. injection H as <-.
-  split; [reflexivity|]. split; [unfold T_A, T_CNAME, T_TXT, T_AAAA in *; lia|]. split; [assumption|].
+  split; [reflexivity|]. split; [unfold T_A, T_CNAME, T_TXT, T_AAAA in *; lia|]. split; [reflexivity|].
   split; [lia|]. exists x1. split; [assumption|]. eapply check_admin_halt; eassumption.
 Qed.
 
